@@ -578,4 +578,75 @@ theorem Arr.join_abs (ps : List SPart) (hno : ∀ p ∈ ps, ∀ v, p ≠ SPart.o
 theorem Arr.join_err (a : Arr) (v : Val) (ps : List Part) : a.join (.one v :: ps) = (a, .err) := by
   unfold Arr.join; rfl
 
+/-! ### array/remove with the decoding spelled out -/
+
+theorem removeCount_nonneg {n : Option Arg} {m0 : Int} (hn : removeCount n = some m0) : 0 ≤ m0 := by
+  unfold removeCount at hn
+  cases n with
+  | none => cases hn; omega
+  | some x =>
+    simp only [] at hn
+    cases hx : getInteger x with
+    | none => rw [hx] at hn; cases hn
+    | some v =>
+      rw [hx] at hn
+      simp only [] at hn
+      by_cases cv : v < 0
+      · rw [if_pos cv] at hn; cases hn
+      · rw [if_neg cv] at hn; cases hn; omega
+
+theorem Arr.remove_exact {a : Arr} {xs : List Val} (h : a.Abs xs) (q : Int) (n : Option Arg) :
+    let p : Int := if q < 0 then (xs.length : Int) + q else q
+    (((p < 0 ∨ p > xs.length) ∨ removeCount n = none) ∧ a.remove (.int q) n = (a, .err)) ∨
+    ∃ m0 : Int, 0 ≤ p ∧ p ≤ xs.length ∧ removeCount n = some m0 ∧ 0 ≤ m0 ∧ (a.remove (.int q) n).2 = .ok ∧
+      (a.remove (.int q) n).1.Abs (xs.take p.toNat ++ xs.drop (p.toNat + (min m0 ((xs.length : Int) - p)).toNat)) := by
+  intro p
+  have hce := h.count_eq
+  have hp : (if q < 0 then (a.count : Int) + q else q) = p := by show _ = (if q < 0 then (xs.length : Int) + q else q); rw [hce]
+  unfold Arr.remove Arr.removeWith
+  simp only [removeClampNoOverflow, getInteger]
+  rw [hp]
+  by_cases c1 : p < 0 ∨ p > (a.count : Int)
+  · left; rw [if_pos c1]; exact ⟨Or.inl (by omega), rfl⟩
+  · rw [if_neg c1]
+    cases hn : removeCount n with
+    | none => left; exact ⟨Or.inr rfl, rfl⟩
+    | some m0 =>
+      right
+      have hm0 := removeCount_nonneg hn
+      simp only [Bool.not_true, Bool.false_and, if_true, Bool.false_eq_true, if_false]
+      generalize hm : (if m0 > (a.count : Int) - p then (a.count : Int) - p else m0) = m
+      have hmb : 0 ≤ m ∧ p + m ≤ a.count ∧ m = min m0 ((xs.length : Int) - p) := by
+        by_cases cc : m0 > (a.count : Int) - p
+        · rw [if_pos cc] at hm; omega
+        · rw [if_neg cc] at hm; omega
+      refine ⟨m0, by omega, by omega, rfl, hm0, by first | rfl | trivial, ?_⟩
+      rw [← hmb.2.2]
+      refine ⟨?_, ?_, by simpa [size_writeAt] using h.cap, h.fits⟩
+      · simp; omega
+      · have htail : readAt a.cells (p + m).toNat (a.count - p.toNat - m.toNat) =
+            ((xs.drop (p + m).toNat).take (a.count - p.toNat - m.toNat)).map some :=
+          readAt_sub_of_rep h.rep _ _ (by omega)
+        have epm : (p + m).toNat = p.toNat + m.toNat := by omega
+        intro i hi
+        have hil : i < xs.length - m.toNat := by
+          have : (xs.take p.toNat ++ xs.drop (p.toNat + m.toNat)).length = xs.length - m.toNat := by simp; omega
+          omega
+        show (writeAt a.cells p.toNat (readAt a.cells (p + m).toNat (a.count - p.toNat - m.toNat)))[i]? = _
+        rw [getElem?_writeAt, htail, epm]
+        simp only [List.length_map, List.length_take, List.length_drop]
+        by_cases h1 : i < p.toNat
+        · have n1 : ¬ (p.toNat ≤ i ∧ i < p.toNat + min (a.count - p.toNat - m.toNat) (xs.length - (p.toNat + m.toNat)) ∧ i < a.cells.size) := by omega
+          rw [if_neg n1, List.getElem?_append_left (by simp; omega), List.getElem?_take]
+          simp only [h1, if_true]
+          exact h.rep i (by omega)
+        · have hsz := h.rep.len_le
+          have y1 : p.toNat ≤ i ∧ i < p.toNat + min (a.count - p.toNat - m.toNat) (xs.length - (p.toNat + m.toNat)) ∧ i < a.cells.size := by omega
+          rw [if_pos y1, List.getElem?_append_right (by simp; omega)]
+          have hl : (List.take p.toNat xs).length = p.toNat := by simp; omega
+          rw [hl]
+          have h3 : i - p.toNat < a.count - p.toNat - m.toNat := by omega
+          have h5 : p.toNat + m.toNat + (i - p.toNat) < xs.length := by omega
+          simp [h3, h5]
+
 end JanetModel.Seq
